@@ -559,3 +559,179 @@ func instNoOpt(ts []ptemplate, vals map[int]string) (string, bool) {
 	}
 	return "", false
 }
+
+// evalBuilderForState evaluates a builder with one enumerated parameter fixed to a constant, following the switch / if
+// statements that test that parameter (single path), and returns the templates of the value returned.
+func evalBuilderForState(p *Prog, f *FuncInfo, stateIdx int, val *types.Const) ([]ptemplate, string) {
+	pe := &pathEval{p: p}
+	info := f.Info()
+	sig := f.Obj.Type().(*types.Signature)
+	env := map[*types.Var][]ptemplate{}
+	var stateVar *types.Var
+	for i := 0; i < sig.Params().Len(); i++ {
+		v := sig.Params().At(i)
+		if i == stateIdx {
+			stateVar = v
+			continue
+		}
+		env[v] = []ptemplate{{tpart{slot: i}}}
+	}
+	isState := func(e ast.Expr) bool {
+		id, ok := ast.Unparen(e).(*ast.Ident)
+		return ok && info.Uses[id] == stateVar
+	}
+	isVal := func(e ast.Expr) (bool, bool) { // (is a constant of the enumeration, equals val)
+		tv, ok := info.Types[e]
+		if !ok || tv.Value == nil {
+			return false, false
+		}
+		return true, tv.Value.ExactString() == val.Val().ExactString()
+	}
+	var result []ptemplate
+	done := false
+	var run func(list []ast.Stmt) string
+	run = func(list []ast.Stmt) string {
+		for _, st := range list {
+			if done {
+				return ""
+			}
+			switch x := st.(type) {
+			case *ast.DeclStmt:
+				gd, ok := x.Decl.(*ast.GenDecl)
+				if !ok {
+					return "unsupported declaration"
+				}
+				for _, sp := range gd.Specs {
+					vs, ok := sp.(*ast.ValueSpec)
+					if !ok {
+						continue
+					}
+					for i, id := range vs.Names {
+						v, _ := info.Defs[id].(*types.Var)
+						if v == nil {
+							continue
+						}
+						if i < len(vs.Values) {
+							env[v] = pe.evalExpr(f, vs.Values[i], env)
+						} else {
+							env[v] = litT("")
+						}
+					}
+				}
+			case *ast.AssignStmt:
+				if len(x.Lhs) != len(x.Rhs) {
+					return "unsupported assignment"
+				}
+				for i, l := range x.Lhs {
+					id, ok := ast.Unparen(l).(*ast.Ident)
+					if !ok {
+						return "unsupported assignment target"
+					}
+					v, _ := info.ObjectOf(id).(*types.Var)
+					if v == nil {
+						return "unsupported assignment target"
+					}
+					if x.Tok == token.ADD_ASSIGN {
+						env[v] = cross(env[v], pe.evalExpr(f, x.Rhs[i], env))
+					} else {
+						env[v] = pe.evalExpr(f, x.Rhs[i], env)
+					}
+				}
+			case *ast.SwitchStmt:
+				if x.Init != nil || x.Tag == nil || !isState(x.Tag) {
+					return "switch on something else than the state parameter"
+				}
+				var chosen, def *ast.CaseClause
+				for _, cst := range x.Body.List {
+					cc := cst.(*ast.CaseClause)
+					if cc.List == nil {
+						def = cc
+						continue
+					}
+					for _, e := range cc.List {
+						isC, eq := isVal(e)
+						if !isC {
+							return "non-constant case"
+						}
+						if eq && chosen == nil {
+							chosen = cc
+						}
+					}
+				}
+				if chosen == nil {
+					chosen = def
+				}
+				if chosen != nil {
+					if msg := run(chosen.Body); msg != "" {
+						return msg
+					}
+				}
+			case *ast.IfStmt:
+				if x.Init != nil {
+					return "if with init"
+				}
+				be, ok := ast.Unparen(x.Cond).(*ast.BinaryExpr)
+				if !ok || (be.Op != token.EQL && be.Op != token.NEQ) {
+					return "unsupported condition " + exprString(x.Cond)
+				}
+				var other ast.Expr
+				switch {
+				case isState(be.X):
+					other = be.Y
+				case isState(be.Y):
+					other = be.X
+				default:
+					return "condition not on the state parameter"
+				}
+				isC, eq := isVal(other)
+				if !isC {
+					return "state compared with a non-constant"
+				}
+				taken := eq == (be.Op == token.EQL)
+				if taken {
+					if msg := run(x.Body.List); msg != "" {
+						return msg
+					}
+				} else if x.Else != nil {
+					switch e := x.Else.(type) {
+					case *ast.BlockStmt:
+						if msg := run(e.List); msg != "" {
+							return msg
+						}
+					case *ast.IfStmt:
+						if msg := run([]ast.Stmt{e}); msg != "" {
+							return msg
+						}
+					}
+				}
+			case *ast.ReturnStmt:
+				if len(x.Results) != 1 {
+					return "unsupported return"
+				}
+				result = pe.evalExpr(f, x.Results[0], env)
+				done = true
+				return ""
+			case *ast.BlockStmt:
+				if msg := run(x.List); msg != "" {
+					return msg
+				}
+			default:
+				return "unsupported statement"
+			}
+		}
+		return ""
+	}
+	if stateVar == nil {
+		return nil, "no state parameter"
+	}
+	if msg := run(f.Decl.Body.List); msg != "" {
+		return nil, msg
+	}
+	if pe.fail != "" {
+		return nil, pe.fail
+	}
+	if !done {
+		return nil, "no return reached"
+	}
+	return result, ""
+}
